@@ -1,4 +1,4 @@
-import LopdfModel.Lemmas.LoadObjects
+import LopdfModel.Lemmas.SortedObjs
 /-
   C01 (file level) — **`load ∘ save` for table saves**, composed down to the objects: given the
   object-level round trips (trailer dictionary, each indirect object) as hypotheses, `Reader::read`
@@ -201,6 +201,27 @@ theorem stepOs_fold_get (objs : Objects) (id : ObjId) : ∀ (L : List (Nat × XE
             exact absurd (Prod.ext hb.1 hb.2) hid
         simp only [this, Bool.false_or, hid, if_false]
 
+theorem keys_map_of_fst (os : LObjects) (G : ObjId × LObj → ObjId × Obj) (hG : ∀ p, (G p).1 = p.1) :
+    (os.map G).map (·.1) = os.map (·.1) := by
+  rw [List.map_map]
+  apply List.map_congr_left
+  intro p _
+  exact hG p
+
+theorem stepOs_fold_nodup (objs : Objects) : ∀ (L : List (Nat × XEntry)) (os : LObjects),
+    (os.map (·.1)).Nodup → ((L.foldl (stepOs objs) os).map (·.1)).Nodup := by
+  intro L
+  induction L with
+  | nil => intro os h; exact h
+  | cons e rest ih =>
+    intro os h
+    simp only [List.foldl_cons]
+    apply ih
+    obtain ⟨k, v⟩ := e
+    cases v with
+    | compressed a b => exact h
+    | normal off g => exact LObjects_insert_nodup os _ _ h
+
 /-- **the object pass on a table all of whose entries read back**: it succeeds, keeps the
 cross-reference data, and holds under each id named by an in-use entry the object read there -/
 theorem objectPass_good (arr : List Block → List Block) (harr : arr [] = []) (buf version mark : Bytes)
@@ -208,11 +229,22 @@ theorem objectPass_good (arr : List Block → List Block) (harr : arr [] = []) (
     (hgood : ∀ e ∈ x.sorted, EntryGood buf x x.sorted.length objs e) :
     ∃ L : Loaded, objectPass arr buf version mark x tr xs = .ok L ∧ L.version = version ∧ L.binaryMark = mark ∧
       L.trailer = tr ∧ L.xrefStart = xs ∧ L.maxId = x.maxId ∧
-      ∀ id, L.objects.get id = if x.sorted.any (entryIs id) then some ((objs.get id).getD .null) else none := by
+      (∀ id, L.objects.get id = if x.sorted.any (entryIs id) then some ((objs.get id).getD .null) else none) ∧
+      SortedO L.objects := by
   have hfold := loadStep_fold buf x x.sorted.length objs x.sorted [] hgood
   unfold objectPass
   simp only [hfold, harr, mergeBlocksX_nil]
-  refine ⟨_, rfl, rfl, rfl, rfl, rfl, by simp, ?_⟩
+  refine ⟨_, rfl, rfl, rfl, rfl, rfl, by simp, ?_, ?_⟩
+  rotate_left
+  · simp only
+    apply (foldr_insertSortedO_sorted _ ?_).1
+    have hkeys := stepOs_fold_nodup objs x.sorted [] (by simp)
+    refine Eq.mpr (congrArg List.Nodup (keys_map_of_fst _ _ ?_)) hkeys
+    intro p
+    obtain ⟨i, lo⟩ := p
+    simp only
+    repeat' split
+    all_goals rfl
   intro id
   simp only
   rw [Objects_get_foldr_sorted]
@@ -274,7 +306,7 @@ theorem load_of_save_table_withN (arr : List Block → List Block) (harr : arr [
     (hprev : tr'.get PREV = none) (henc : tr'.has ENCRYPT = false) :
     ∃ L : Loaded, loadDocWith arr out = .ok L ∧ L.version = d.version ∧ L.binaryMark = d.binaryMark ∧
       L.trailer = tr' ∧ L.xrefStart = (bodyOf [] d).length ∧ L.maxId ≤ d.maxId ∧
-      ∀ id, L.objects.get id = (d.objects.get id).map nf := by
+      (∀ id, L.objects.get id = (d.objects.get id).map nf) ∧ SortedO L.objects := by
   obtain ⟨table, hget, _, hnodup, hload⟩ :=
     load_front_of_save_tableN arr d out d' tr' hk h hlen hmax hwf.gens hD hsz hv1 hv2 hprev henc
   have hb := body_le_out [] d out d' h
@@ -312,9 +344,9 @@ theorem load_of_save_table_withN (arr : List Block → List Block) (harr : arr [
     refine ⟨off, g, nf o, hv, hoff, by rw [Objects_get_mapval, hog]; rfl, hnf o hkept, ?_⟩
     rw [← hrest]
     exact hobj ((k, g), o) (Objects_mem_of_get d.objects (k, g) o hog) _ _ _
-  obtain ⟨L, hL, l1, l2, l3, l4, l5, l6⟩ := objectPass_good arr harr out d.version d.binaryMark table tr'
+  obtain ⟨L, hL, l1, l2, l3, l4, l5, l6, l7⟩ := objectPass_good arr harr out d.version d.binaryMark table tr'
     (bodyOf [] d).length (d.objects.map fun p => (p.1, nf p.2)) hgood
-  refine ⟨L, by rw [hload]; exact hL, l1, l2, l3, l4, ?_, ?_⟩
+  refine ⟨L, by rw [hload]; exact hL, l1, l2, l3, l4, ?_, ?_, l7⟩
   · rw [l5]
     apply XTable_maxId_le
     intro p hp
@@ -378,15 +410,15 @@ theorem load_of_save_table_with (arr : List Block → List Block) (harr : arr []
     (hprev : d.trailer.get PREV = none) (henc : d.trailer.has ENCRYPT = false) :
     ∃ L : Loaded, loadDocWith arr out = .ok L ∧ L.version = d.version ∧ L.binaryMark = d.binaryMark ∧
       L.trailer = d'.trailer ∧ L.xrefStart = (bodyOf [] d).length ∧ L.maxId ≤ d.maxId ∧
-      ∀ id, L.objects.get id = d.objects.get id := by
+      (∀ id, L.objects.get id = d.objects.get id) ∧ SortedO L.objects := by
   obtain ⟨_, htr⟩ := saveFrom_table_eq [] d out d' hk h
   have k1 : ¬ SIZE = PREV := by decide
   have k2 : ¬ SIZE = ENCRYPT := by decide
-  obtain ⟨L, h1, h2, h3, h4, h5, h6, h7⟩ := load_of_save_table_withN arr harr id (fun o ho => ho) d out d' d'.trailer
+  obtain ⟨L, h1, h2, h3, h4, h5, h6, h7, h8⟩ := load_of_save_table_withN arr harr id (fun o ho => ho) d out d' d'.trailer
     hk h hlen hmax hwf hD (by rw [htr, Dict.get_set_same]; simp) (fun p hp => hobj p hp) hv1 hv2
     (by rw [htr, Dict_get_set]; simp only [k1, if_false]; exact hprev)
     (by rw [Dict_has_eq, htr, Dict_get_set]; simp only [k2, if_false]; rw [← Dict_has_eq]; exact henc)
-  exact ⟨L, h1, h2, h3, h4, h5, h6, fun i => by rw [h7 i]; simp⟩
+  exact ⟨L, h1, h2, h3, h4, h5, h6, fun i => by rw [h7 i]; simp, h8⟩
 
 theorem loadDocOrd_arr_nil (order : Option (List Nat)) :
     (match order with | none => (id : List Block → List Block) | some p => fun bs => permuteBlocks bs p) [] = [] := by
@@ -404,7 +436,7 @@ theorem load_of_save_table (order : Option (List Nat)) (d : SDoc) (out : Bytes) 
     (hprev : d.trailer.get PREV = none) (henc : d.trailer.has ENCRYPT = false) :
     ∃ L : Loaded, loadDocOrd order out = .ok L ∧ L.version = d.version ∧ L.binaryMark = d.binaryMark ∧
       L.trailer = d'.trailer ∧ L.xrefStart = (bodyOf [] d).length ∧ L.maxId ≤ d.maxId ∧
-      ∀ id, L.objects.get id = d.objects.get id :=
+      (∀ id, L.objects.get id = d.objects.get id) ∧ SortedO L.objects :=
   load_of_save_table_with _ (loadDocOrd_arr_nil order) d out d' hk h hlen hmax hwf hD hobj hv1 hv2 hprev henc
 
 end Lopdf.FileRT
